@@ -141,12 +141,14 @@ PROPS = {
     "C08": {
         "title": "Ranges, phase ranges and range rates equal the standard's formulas",
         "design_ref": "DESIGN.md §7 C08, §4.6",
-        "technique": "Lean 4 proof of the exact (scaled-integer) layer incl. 64-bit wrap modelling, invalid markers, MSM4=MSM7; frequency tables regenerated from the source; float layer by exact-rational oracle (partial)",
+        "technique": "Lean 4 proof of the exact (scaled-integer) layer incl. 64-bit wrap modelling, invalid markers, MSM4=MSM7; exact binary64 model with accuracy theorems for range in metres and range rate; frequency tables regenerated from the source; phase range in cycles and Doppler by exact-rational oracle (partial)",
         "text": "Kernel-checked theorems: the scaled integers GetAggregateRange/PhaseRange/PhaseRangeRate compute are exactly whole*2^29+frac*2^19+fine (MSM4: fine*32), whole*2^31+frac*2^21+phase (MSM4: *4), "
                 "rough*10000+fine for all field values with non-negative true value (the |-of-shifted-parts is a sum, the uint64(int64()) cast is the identity - proved, wrap case exhibited); an invalid rough value gives zero, "
                 "each invalid fine value falls back to the rough value, an MSM4 and an MSM7 cell encoding the same quantity agree. Frequency tables, markers and scale constants are regenerated from the source and pinned "
-                "to the documented bands. The float layer (metres, cycles, m/s, Hz) is PARTIAL: two or three IEEE operations on exactly representable integers, compared by the harness with exact rational arithmetic to 8 ulp.",
-        "note": "Float results are not theorems (hardware arithmetic); 'to within floating-point rounding' is checked against big.Rat on every generated cell.",
+                "to the documented bands. Float layer: range_metres_accurate (float64(scaled)/2^29*299792.458 is within 2^-51 of the formula for every aggregate range) and rate_accurate (float64(scaled)/10000 is within 2^-53) "
+                "are proved in an exact integer model of binary64 rounding, which the harness compares BIT FOR BIT with the hardware results (MSM4 and MSM7 range in metres, rate in m/s). The phase range in cycles and the Doppler "
+                "(further divisions by a wavelength that is itself a rounded quotient) are PARTIAL: compared with exact rational arithmetic to 8 ulp.",
+        "note": "Phase range (cycles) and Doppler (Hz) are not theorems; 'to within floating-point rounding' is checked against big.Rat on every generated cell. Exponent range/subnormals are not modelled (values between 2^-20 and 2^40).",
         "assumptions": ["IEEE-754 binary64 arithmetic; float64(uint64) conversion exact below 2^53"],
     },
     "C13": {
@@ -176,12 +178,15 @@ PROPS = {
         "race": True,
         "title": "The recent-message queue always holds the last N messages in arrival order",
         "design_ref": "DESIGN.md §7 C18",
-        "technique": "Lean 4 proof (eviction loop = drop, window invariant by induction on the additions, any N >= 1) + locking skeleton tie + differential correspondence (exhaustive op patterns, long runs) + linearizability check of concurrent histories",
+        "technique": "Lean 4 proof (eviction loop = drop, window invariant by induction on the additions, any N >= 1; transition system of goroutines running Add/GetMessages as micro-steps under the RWMutex discipline with an inductive invariant; kernel-checked counterexample without the lock) + locking/receiver-writes ties + differential correspondence (exhaustive op patterns, long runs) + linearizability check of concurrent histories",
         "text": "Kernel-checked theorems for every capacity N >= 1 and every sequence of additions: a snapshot is exactly the last min(N, added) messages in order, the queue never holds more than N, snapshots interleaved with "
-                "additions see contiguous runs. Concurrency: Add runs under the write lock and GetMessages under the read lock of one RWMutex and nothing else touches the state (regenerated tie), so concurrent histories are "
-                "sequential histories in lock order; the real-time clause is PARTIAL (sync.RWMutex trusted) and checked on concurrent histories of the real queue: every snapshot must be a contiguous run ending between the "
-                "additions completed before it was invoked and those begun before it returned.",
-        "note": "Capacity <= 0 is outside the property (N >= 1). Index overflow of NextIndex (after 2^63 additions) is not modelled.",
+                "additions see contiguous runs. Concurrency: concurrent_snapshots_linearizable - in a transition system of ANY number of goroutines calling Add and GetMessages, each broken into its micro-steps on the shared map "
+                "(test, key snapshot, one delete per iteration, assignment, increment; key snapshot, one lookup per iteration) and interleaved arbitrarily under the RWMutex discipline, every returned snapshot is the last min(N, n) "
+                "of the first n additions in lock order (n = additions that obtained the lock before the reader; the lock is obtained between invocation and return, so real-time order is respected); no partial state is ever "
+                "observed, and the same code without the lock has a kernel-checked execution that returns an empty snapshot from a non-empty queue. Ties regenerated from the source: Add runs under Lock and GetMessages under RLock "
+                "(deferred unlocks), Add is the only method that writes the queue, nothing else touches its state, guards and loop headers. Checked on the real queue: sequential op sequences against the model, snapshots "
+                "re-read after later additions (no aliasing), concurrent histories (contiguous run ending between the additions completed before invocation and begun before return), a deadlock watchdog, thorough tier under -race.",
+        "note": "Capacity <= 0 is outside the property (N >= 1). Index overflow of NextIndex (after 2^63 additions) is not modelled. sync.RWMutex itself is trusted to implement the discipline the transition system assumes.",
         "assumptions": ["sync.RWMutex provides writer/reader exclusion"],
     },
     "C09": {
